@@ -258,7 +258,7 @@ impl Sim {
         let world = World {
             pid,
             ppid: 1,
-            threads: vec![ThreadSpec { tid: pid, comm: B::s("child"), regs: vec![1; NREGS], fp: B(vec![0; 512]), dregs: vec![0; 8], program: Program::Parked, foreign_tracer: false, zombie: false, stop_latency_ns: 0, comm_fault: None }],
+            threads: vec![ThreadSpec { tid: pid, comm: B::s("child"), regs: vec![1; NREGS], fp: B(vec![0; 512]), dregs: vec![0; 8], program: Program::Parked, foreign_tracer: false, zombie: false, stop_latency_ns: 0, comm_fault: None, blocked_until_ns: 0 }],
             regions,
             uname: vec!["Linux".into(), "r".into(), "v".into(), "x86_64".into()],
             ..Default::default()
@@ -607,6 +607,199 @@ fn zombie_leader_lane() -> Result<(usize, usize), String> {
     Ok((real.len(), bad))
 }
 
+pub fn child_three_threads() -> ! {
+    for _ in 0..2 {
+        std::thread::spawn(|| loop {
+            std::thread::sleep(std::time::Duration::from_secs(1));
+        });
+    }
+    loop {
+        std::thread::sleep(std::time::Duration::from_secs(1));
+    }
+}
+
+fn dir_count(path: &str) -> String {
+    match std::fs::read_dir(path) {
+        Ok(rd) => format!("{} entries", rd.flatten().count()),
+        Err(e) => format!("errno {}", e.raw_os_error().unwrap_or(-1)),
+    }
+}
+
+/// facts about a process that is killed (SIGKILL) while all its threads are ptrace-attached:
+/// real kernel vs model
+fn killed_while_attached_lane() -> Result<(usize, usize), String> {
+    let exe = std::env::current_exe().map_err(|e| e.to_string())?;
+    let mut child = std::process::Command::new(exe).arg("conformance-child-threads").spawn().map_err(|e| e.to_string())?;
+    let pid = child.id() as i32;
+    let t0 = std::time::Instant::now();
+    let mut tids: Vec<i32>;
+    loop {
+        tids = std::fs::read_dir(format!("/proc/{}/task", pid)).map(|rd| rd.flatten().filter_map(|e| e.file_name().to_string_lossy().parse::<i32>().ok()).collect()).unwrap_or_default();
+        if tids.len() == 3 {
+            break;
+        }
+        if t0.elapsed().as_secs() > 5 {
+            let _ = child.kill();
+            let _ = child.wait();
+            return Err("child did not start its threads".into());
+        }
+        std::thread::sleep(std::time::Duration::from_millis(5));
+    }
+    tids.sort();
+    let mut real: Vec<String> = Vec::new();
+    unsafe {
+        libc::kill(pid, libc::SIGSTOP);
+    }
+    std::thread::sleep(std::time::Duration::from_millis(30));
+    for t in &tids {
+        let r = unsafe { libc::syscall(libc::SYS_ptrace, 16 as c_long, *t, 0usize, 0usize) };
+        let mut st: c_int = 0;
+        let w = unsafe { libc::syscall(libc::SYS_wait4, *t, &mut st as *mut c_int, libc::__WALL, 0usize) };
+        real.push(format!("attach -> {} wait {} status {:#x}", r, if w as i32 == *t { "tid" } else { "other" }, st));
+    }
+    unsafe {
+        libc::kill(pid, libc::SIGKILL);
+    }
+    std::thread::sleep(std::time::Duration::from_millis(60));
+    for f in ["auxv", "maps", "cmdline", "environ", "comm", "status", "limits", "stat", "mem"] {
+        real.push(format!("leader {} -> {}", f, errno_of_open(&format!("/proc/{}/{}", pid, f))));
+    }
+    let other = tids[1];
+    for f in ["status", "comm"] {
+        real.push(format!("other task {} -> {}", f, errno_of_open(&format!("/proc/{}/task/{}/{}", pid, other, f))));
+    }
+    real.push(format!("other maps -> {}", errno_of_open(&format!("/proc/{}/maps", other))));
+    real.push(format!("task dir -> {}", dir_count(&format!("/proc/{}/task", pid))));
+    real.push(format!("fd dir -> {}", dir_count(&format!("/proc/{}/fd", pid))));
+    let st = std::fs::read_to_string(format!("/proc/{}/task/{}/stat", pid, other)).unwrap_or_default();
+    real.push(format!("other state -> {}", st.rsplit(')').next().map(|r| r.trim_start().chars().next().unwrap_or('?')).unwrap_or('?')));
+    for t in [pid, other] {
+        let mut regs = [0u64; 27];
+        let r = unsafe { libc::syscall(libc::SYS_ptrace, 12 as c_long, t, 0usize, regs.as_mut_ptr()) };
+        real.push(format!("getregs -> {}", if r < 0 { format!("errno {}", errno()) } else { "ok".into() }));
+        let mut word = 0u64;
+        let r = unsafe { libc::syscall(libc::SYS_ptrace, 2 as c_long, t, &real as *const _ as usize, &mut word as *mut u64) };
+        real.push(format!("peekdata -> {}", if r < 0 { format!("errno {}", errno()) } else { "ok".into() }));
+        let mut buf = [0u8; 8];
+        let l = libc::iovec { iov_base: buf.as_mut_ptr() as *mut c_void, iov_len: 8 };
+        let rv = libc::iovec { iov_base: (&buf as *const u8) as *mut c_void, iov_len: 8 };
+        let n = unsafe { libc::syscall(libc::SYS_process_vm_readv, t, &l as *const libc::iovec, 1usize, &rv as *const libc::iovec, 1usize, 0usize) };
+        real.push(format!("vm_readv -> {}", if n < 0 { format!("errno {}", errno()) } else { "ok".into() }));
+    }
+    // a fourth attach attempt on a killed thread
+    let r = unsafe { libc::syscall(libc::SYS_ptrace, 16 as c_long, other, 0usize, 0usize) };
+    real.push(format!("attach again -> {}", if r < 0 { format!("errno {}", errno()) } else { "ok".into() }));
+    for t in &tids {
+        let r = unsafe { libc::syscall(libc::SYS_ptrace, 17 as c_long, *t, 0usize, 0usize) };
+        real.push(format!("detach -> {}", if r < 0 { format!("errno {}", errno()) } else { "ok".into() }));
+    }
+    let r = unsafe { libc::kill(pid, libc::SIGCONT) };
+    real.push(format!("kill SIGCONT -> {}", if r < 0 { format!("errno {}", errno()) } else { "ok".into() }));
+    real.push(format!("leader status afterwards -> {}", errno_of_open(&format!("/proc/{}/status", pid))));
+    for t in tids.iter().rev() {
+        let mut st: c_int = 0;
+        let w = unsafe { libc::syscall(libc::SYS_wait4, *t, &mut st as *mut c_int, libc::__WALL, 0usize) };
+        real.push(format!("wait -> {} status {:#x}", if w as i32 == *t { "tid".to_string() } else { format!("errno {}", errno()) }, st));
+    }
+    std::thread::sleep(std::time::Duration::from_millis(30));
+    let _ = child.wait();
+    real.push(format!("leader status after reaping -> {}", errno_of_open(&format!("/proc/{}/status", pid))));
+
+    // the model
+    let mut sim = Sim::new();
+    let spid = sim.pid;
+    for n in 1..3 {
+        let mut t = sim.k.threads[0].clone();
+        t.tid = spid + n;
+        sim.k.threads.push(t);
+    }
+    sim.k.world.auxv = vec![(3, 0x1000)];
+    sim.k.world.auxv_terminated = true;
+    sim.k.world.cmdline = B(b"x\0".to_vec());
+    sim.k.world.environ = B(b"A=B\0".to_vec());
+    sim.k.world.limits = B(b"Limit\n".to_vec());
+    sim.k.world.fds = vec![FdSpec { fd: 0, target: B::s("/dev/null"), mode: 0o020666, stat_fails: false, link_fails: false }];
+    let stids = [spid, spid + 1, spid + 2];
+    let mut model: Vec<String> = Vec::new();
+    let _ = sim.k.sys_kill(spid, 19);
+    sim.k.step_all(4);
+    for t in stids {
+        let r = sim.k.sys_ptrace_attach(t);
+        let w = sim.k.sys_waitpid(t);
+        model.push(format!("attach -> {} wait {} status {:#x}", if r.is_ok() { 0 } else { -1 }, match &w { Ok((x, _)) if *x == t => "tid", _ => "other" }, w.map(|x| x.1).unwrap_or(-1)));
+    }
+    sim.k.kill_process();
+    let probe = |k: &mut Kernel, path: String| -> String {
+        match k.vfs_lookup(path.as_bytes()) {
+            Ok((c, _, _, _)) => format!("open ok, {} bytes", if c.is_empty() { "0" } else { ">0" }),
+            Err(e) => format!("open errno {}", e),
+        }
+    };
+    for f in ["auxv", "maps", "cmdline", "environ", "comm", "status", "limits", "stat", "mem"] {
+        let r = probe(&mut sim.k, format!("/proc/{}/{}", spid, f));
+        model.push(format!("leader {} -> {}", f, r));
+    }
+    let sother = spid + 1;
+    for f in ["status", "comm"] {
+        let r = probe(&mut sim.k, format!("/proc/{}/task/{}/{}", spid, sother, f));
+        model.push(format!("other task {} -> {}", f, r));
+    }
+    let r = probe(&mut sim.k, format!("/proc/{}/maps", sother));
+    model.push(format!("other maps -> {}", r));
+    let count = |k: &mut Kernel, path: String| -> String {
+        match k.sys_opendir(path.as_bytes()) {
+            Err(e) => format!("errno {}", e),
+            Ok(d) => {
+                let key = 0x7777usize;
+                k.dirs.insert(key, d);
+                let mut n = 0;
+                while let Ok(Some(name)) = k.sys_readdir(key) {
+                    if name != b"." && name != b".." {
+                        n += 1;
+                    }
+                }
+                k.sys_closedir(key);
+                format!("{} entries", n)
+            }
+        }
+    };
+    let r = count(&mut sim.k, format!("/proc/{}/task", spid));
+    model.push(format!("task dir -> {}", r));
+    let r = count(&mut sim.k, format!("/proc/{}/fd", spid));
+    model.push(format!("fd dir -> {}", r));
+    let st = sim.k.vfs_lookup(format!("/proc/{}/task/{}/stat", spid, sother).as_bytes()).map(|x| x.0).unwrap_or_default();
+    let st = String::from_utf8_lossy(&st).into_owned();
+    model.push(format!("other state -> {}", st.rsplit(')').next().map(|r| r.trim_start().chars().next().unwrap_or('?')).unwrap_or('?')));
+    for t in [spid, sother] {
+        model.push(format!("getregs -> {}", match sim.k.sys_ptrace_getregs(t, 0, CallKind::PtraceGetregs) { Ok(_) => "ok".to_string(), Err(e) => format!("errno {}", e) }));
+        model.push(format!("peekdata -> {}", match sim.k.sys_ptrace_peekdata(t, BASE) { Ok(_) => "ok".to_string(), Err(e) => format!("errno {}", e) }));
+        model.push(format!("vm_readv -> {}", match sim.k.sys_vmreadv(t, BASE, 8) { Ok(_) => "ok".to_string(), Err(e) => format!("errno {}", e) }));
+    }
+    model.push(format!("attach again -> {}", match sim.k.sys_ptrace_attach(sother) { Ok(_) => "ok".to_string(), Err(e) => format!("errno {}", e) }));
+    for t in stids {
+        model.push(format!("detach -> {}", match sim.k.sys_ptrace_detach(t, 0) { Ok(_) => "ok".to_string(), Err(e) => format!("errno {}", e) }));
+    }
+    model.push(format!("kill SIGCONT -> {}", match sim.k.sys_kill(spid, 18) { Ok(_) => "ok".to_string(), Err(e) => format!("errno {}", e) }));
+    let r = probe(&mut sim.k, format!("/proc/{}/status", spid));
+    model.push(format!("leader status afterwards -> {}", r));
+    for t in stids.iter().rev() {
+        let w = sim.k.sys_waitpid(*t);
+        model.push(match w { Ok((x, st)) => format!("wait -> {} status {:#x}", if x == *t { "tid".to_string() } else { "other".to_string() }, st), Err(e) => format!("wait -> errno {} status 0x0", e) });
+    }
+    let r = probe(&mut sim.k, format!("/proc/{}/status", spid));
+    model.push(format!("leader status after reaping -> {}", r));
+    let mut bad = 0;
+    for i in 0..real.len().max(model.len()) {
+        let a = model.get(i).cloned().unwrap_or_default();
+        let b = real.get(i).cloned().unwrap_or_default();
+        if a != b {
+            bad += 1;
+            eprintln!("conformance divergence (killed while attached) step {}:\n   simulated: {}\n   real     : {}", i, a, b);
+        }
+    }
+    Ok((real.len(), bad))
+}
+
 pub fn run() -> i32 {
     let mut total = 0;
     let mut bad = 0;
@@ -639,6 +832,13 @@ pub fn run() -> i32 {
             bad += b;
         }
         Err(e) => eprintln!("conformance: zombie-leader lane skipped: {}", e),
+    }
+    match killed_while_attached_lane() {
+        Ok((n, b)) => {
+            total += n;
+            bad += b;
+        }
+        Err(e) => eprintln!("conformance: killed-while-attached lane skipped: {}", e),
     }
     println!("conformance: {} observations compared against the real kernel, {} divergent", total, bad);
     let path = format!("{}/sim/conformance_result.json", crate::driver::verif_dir());
